@@ -167,6 +167,20 @@ def op_const(o):
     return o.get("k")
 
 
+def const_value(prog, k):
+    """integer value of a constant operand: literal, or a named const item resolved through the const facts"""
+    if not k:
+        return None
+    if "v" in k:
+        return k["v"]
+    cd = k.get("cdef")
+    if cd:
+        c = prog.consts.get(cd)
+        if c is not None:
+            return c["v"]
+    return None
+
+
 class Fn:
     def __init__(self, rec, crate):
         self.rec = rec
@@ -508,6 +522,7 @@ class Program:
             p = os.path.join(fdir, extra + ".jsonl")
             if os.path.exists(p):
                 self._load(p, extra, extra + "::")
+        self._resolve_named_consts()
         self._callers = None
         self._edges = None
         self._trait_impl_methods = None
@@ -564,6 +579,29 @@ class Program:
                 self.consts[(prefix + r["id"]) if prefix else r["id"]] = r
             elif k == "meta":
                 self.meta[crate] = r
+
+    def _resolve_named_consts(self):
+        """`buf.push(OP_PING)` and `buf.push(0x07)` must look the same to the rules: give every operand
+        that names an integer const item the item's evaluated value (the name is kept)"""
+        vals = {k: c["v"] for k, c in self.consts.items()}
+
+        def fix(o):
+            k = o.get("k") if isinstance(o, dict) else None
+            if k and "v" not in k and k.get("cdef") in vals:
+                k["v"] = vals[k["cdef"]]
+        for f in self.fns.values():
+            for b in f.blocks:
+                for s in b["stmts"]:
+                    ops = s["rv"].get("o")
+                    if isinstance(ops, list):
+                        for o in ops:
+                            fix(o)
+                t = b["term"]
+                for key in ("args", "mo"):
+                    for o in t.get(key, ()) or ():
+                        fix(o)
+                if isinstance(t.get("o"), dict):
+                    fix(t["o"])
 
     # ---- lookup ---------------------------------------------------------------
     def fn(self, fid):
